@@ -119,6 +119,24 @@ class Fn:
             self._preds = p
         return self._preds
 
+    def _bound(self, name):
+        b = self.__dict__.get("_bound_names")
+        if b is None:
+            b = set()
+            for blk in self.blocks.values():
+                for e in blk.elems:
+                    if e["k"] == "decl":
+                        for v in e["vars"]:
+                            if v.get("bind"):
+                                b.add(v["n"])
+            self._bound_names = b
+        return name in b or name.endswith("$result")
+
+    def canon(self, name):
+        """the string show() prints for the local variable `name` (variables introduced by sa/flatten.py print as what
+        they stand for)"""
+        return self.show({"k": "var", "n": name, "sc": "local", "t": -1, "id": -1})
+
     # ---- printing (canonical strings; local single-assignment aliases optionally resolved)
     def show(self, n, alias=False, depth=0):
         if n is None:
@@ -138,7 +156,7 @@ class Fn:
         if k == "fn":
             return n["n"]
         if k == "var":
-            if (alias or "$" in n["n"]) and n["sc"] == "local":  # variables introduced by sa/flatten.py are always seen through
+            if (alias or ("$" in n["n"] and self._bound(n["n"]))) and n["sc"] == "local":  # parameters / results of expanded helpers (sa/flatten.py) are always seen through
                 a = self.aliases().get(n["n"])
                 if a is not None:
                     return self.show(a, alias, depth + 1)
@@ -243,7 +261,11 @@ class Fn:
             return n["n"] not in modified
         if k in ("member", "cast", "decay"):
             return self._pure_expr(n["a"][0], modified, depth + 1)
-        if k == "un" and n["op"] in ("addr", "deref", "-", "~", "!", "+"):
+        if k == "index":
+            return all(self._pure_expr(a, modified, depth + 1) for a in n["a"])
+        if k == "un" and n["op"] == "addr":
+            return self._pure_path(n["a"][0], depth + 1)  # the address of an object does not depend on the object's value
+        if k == "un" and n["op"] in ("deref", "-", "~", "!", "+"):
             return self._pure_expr(n["a"][0], modified, depth + 1)
         if k == "bin" and n["op"] not in ASSIGN_OPS and n["op"] != ",":
             return all(self._pure_expr(a, modified, depth + 1) for a in n["a"])
